@@ -10,7 +10,7 @@ use std::collections::BTreeSet;
 
 pub static DEF: PropDef = PropDef {
     id: "C17",
-    rule: "regex ASTs (literal a/b/c/'.'/'+'/'?'/newline (the '+' and '?' ordinary in the basic syntaxes, written [+] [?] where they are operators), any-char '.', positive/negative bracket sets with ranges, concatenation, alternation, grouping, '*', '+', '?', intervals {m}, {m,}, {m,n} with n <= 3) of depth <= 5, rendered into each supported syntax using only the constructs GNU find documents for it (emacs: \\( \\) \\| * + ?; posix-basic / ed / sed / grep: \\( \\) \\| * \\+ \\? \\{m,n\\}; posix-extended: ( ) | * + ? {m,n}); the literals ( ) | (ordinary outside posix-extended, backslashed there - and an unmatched ')' also bare there); in a fifth of the cases the pattern begins (after the starting-point prefix) with a group holding a word and a back-reference to it, so that its language is W W L(re); for half of the ASTs that are an alternation at the top, that alternation is written at the top of the pattern with the starting-point prefix inside each alternative (r/A|r/B rather than r/(A|B)); in a third of the cases the whole pattern between anchors that change nothing about its language (^ or \\` in front, $ or \\' or a group and $ behind), alternation branches also rendered in reversed order; subjects: strings generated FROM the AST (members), their proper prefixes and one-character extensions (the prefix/substring trap), one-character edits, random strings over the same alphabet, and (where the pattern has no '.' or negated set, the only constructs that could consume it) members followed or preceded by a newline and further text, all embedded as paths r/<subject> with the pattern prefixed by the literal r/. Oracle: an independent set-of-end-positions matcher over the AST deciding membership of the ENTIRE path (ASCII case folding for -iregex). tier A through the verif-hooks entry point: exhaustive over every AST of <= 4 (thorough 5) nodes on {a, b, .} x every subject of <= 4 symbols over {a, b} x every syntax x both case modes, then random; tier B end to end: find r [-regextype T] -regex|-iregex P -print0 on a directory whose files are named by the subjects; positional -regextype: the option placed before a parenthesised group, inside an earlier group, twice with different types. Non-trivial = the AST contains an alternation or a counted repetition (+, ?, interval), and the subject set contains a member, a non-member, and a proper prefix of a member that is itself a member of one alternative or a non-member. Distinct = distinct case JSON.",
+    rule: "regex ASTs (literal a/b/c/'.'/'+'/'?'/newline (the '+' and '?' ordinary in the basic syntaxes, written [+] [?] where they are operators), any-char '.', positive/negative bracket sets with ranges, concatenation, alternation, grouping, '*', '+', '?', intervals {m}, {m,}, {m,n} with n <= 3) of depth <= 5, rendered into each supported syntax using only the constructs GNU find documents for it (emacs: \\( \\) \\| * + ?; posix-basic / ed / sed / grep: \\( \\) \\| * \\+ \\? \\{m,n\\}; posix-extended: ( ) | * + ? {m,n}); the literals ( ) | (ordinary outside posix-extended, backslashed there - and an unmatched ')' also bare there); in a fifth of the cases the pattern begins (after the starting-point prefix) with a group holding a word and a back-reference to it, so that its language is W W L(re); for half of the ASTs that are an alternation at the top, that alternation is written at the top of the pattern with the starting-point prefix inside each alternative (r/A|r/B rather than r/(A|B)); in a third of the cases the whole pattern between anchors that change nothing about its language (^ or \\` in front, $ or \\' or a group and $ behind), alternation branches also rendered in reversed order; subjects: strings generated FROM the AST (members), their proper prefixes and one-character extensions (the prefix/substring trap), one-character edits, random strings over the same alphabet, and (where the pattern has no '.' or negated set, the only constructs that could consume it) members followed or preceded by a newline and further text, all embedded as paths r/<subject> with the pattern prefixed by the literal r/. Oracle: an independent set-of-end-positions matcher over the AST deciding membership of the ENTIRE path (ASCII case folding for -iregex). tier A through the verif-hooks entry point: exhaustive over every AST of <= 4 (thorough 5) nodes on {a, b, .} x every subject of <= 4 symbols over {a, b} x every syntax x both case modes, then random; tier B end to end: find r [-regextype T] -regex|-iregex P -print0 on a directory whose files are named by the subjects; positional -regextype: the option placed before a parenthesised group, inside an earlier group, twice with different types. Sub-run brackets: r/x[...]y with members drawn from ] \\ 1 2 ( ) | * + ? { } $ . ^ - a b A (']' first, '-' last, '^' not first; negated or not; six syntaxes) against r/x<c>y for every such character c: in the language iff (c is a member) != negated. Non-trivial = the AST contains an alternation or a counted repetition (+, ?, interval), and the subject set contains a member, a non-member, and a proper prefix of a member that is itself a member of one alternative or a non-member. Distinct = distinct case JSON.",
     assumptions: &[
         "back-references other than the leading group-and-reference, anchors inside patterns (anchors around the whole pattern are generated), POSIX classes, case folding beyond ASCII are not generated; newlines in paths only for patterns without . and negated sets",
         "only constructs GNU find documents for each syntax are rendered (emacs without intervals)",
